@@ -202,7 +202,20 @@ def has_yield_in_func(fnode):
     return False
 
 
+class EnumMember(object):
+    """a member of an Enum class of the package, as far as constant folding needs it"""
+
+    def __init__(self, name, value):
+        self.name, self.value = name, value
+
+    def __repr__(self):
+        return "<%s: %r>" % (self.name, self.value)
+
+
 class Program:
+    def _is_enum_class(self, ci):
+        return any(b.split(".")[-1] in ("Enum", "IntEnum", "Flag", "IntFlag", "StrEnum") for b in getattr(ci, "ext_bases", ()) or ())
+
     def __init__(self, root=None):
         self.root = root or REPO
         self.pkgdir = os.path.join(self.root, PKG)
@@ -478,7 +491,33 @@ class Program:
                 r = self.resolve_name(mod, expr.id)
                 if r and r[0] == "const":
                     return self.fold(r[1], r[2], None, depth + 1)
+                if r and r[0] == "class" and self._is_enum_class(r[1]):
+                    # iterating an Enum class yields its members in definition order: (name, value) records
+                    ci = r[1]
+                    return [EnumMember(n.targets[0].id, self.fold(n.value, ci.module, None, depth + 1)) for n in ci.node.body
+                            if isinstance(n, ast.Assign) and len(n.targets) == 1 and isinstance(n.targets[0], ast.Name) and not n.targets[0].id.startswith("_")]
             raise ValueError("name %s" % expr.id)
+        if isinstance(expr, ast.Attribute) and expr.attr in ("value", "name"):
+            try:
+                base = self.fold(expr.value, mod, env, depth + 1)
+            except ValueError:
+                base = None
+            if isinstance(base, EnumMember):
+                return getattr(base, expr.attr)
+            if expr.attr == "value" and base is not None and isinstance(expr.value, ast.Attribute) and mod is not None:
+                rr = self.resolve_expr(mod, expr.value)
+                if rr and rr[0] == "classattr" and self._is_enum_class(rr[2]):
+                    return base                      # <Enum>.<member>.value is the member's constant
+        if isinstance(expr, ast.Attribute) and expr.attr == "size" and mod is not None and isinstance(expr.value, (ast.Name, ast.Attribute)):
+            # <prepared struct>.size: the size of the format it was compiled from
+            rb = self.resolve_expr(mod, expr.value) if isinstance(expr.value, ast.Attribute) else self.resolve_name(mod, expr.value.id)
+            if rb and rb[0] == "const" and isinstance(rb[1], ast.Call) and (call_name(rb[1]) or "").split(".")[-1] == "Struct" and len(rb[1].args) == 1:
+                import struct as _struct
+                fmt = self.fold(rb[1].args[0], rb[2], None, depth + 1)
+                try:
+                    return _struct.calcsize(fmt)
+                except Exception as e_:
+                    raise ValueError(str(e_))
         if isinstance(expr, ast.Attribute) and mod is not None:
             r = self.resolve_expr(mod, expr)
             if r and r[0] == "const":
